@@ -82,11 +82,19 @@ fn lit_float(f: f64) -> String {
 
 /// one host call with generator-known arguments; returns (statement, rendered call, observed payload)
 fn host_call(rng: &mut Rng, tag: i64) -> (String, Vec<String>, String) {
-    let n = rng.range(0, 900) as i64;
+    // mostly small numbers, sometimes negative or beyond 32 / 53 bits
+    let n = match rng.below(8) {
+        0 => -(rng.range(1, 900) as i64),
+        1 => (1i64 << 40) + rng.below(900) as i64,
+        2 => -((1i64 << 53) + 1),
+        _ => rng.range(0, 900) as i64,
+    };
+    let nlit = if n < 0 { format!("(0 - {})", -n) } else { n.to_string() };
+    let nlit = nlit.as_str();
     let word = *rng.pick(&["alpha", "b", "", "gamma delta", "z9"]);
-    match rng.below(12) {
+    match rng.below(14) {
         0 => (
-            format!("obs({tag}, \"\" .. echo_int({n}))\n"),
+            format!("obs({tag}, \"\" .. echo_int({nlit}))\n"),
             vec![format!("echo_int({n})")],
             format!("{}", n + 1000),
         ),
@@ -116,7 +124,7 @@ fn host_call(rng: &mut Rng, tag: i64) -> (String, Vec<String>, String) {
             let b = rng.chance(1, 2);
             (
                 format!(
-                    "obs({tag}, show_mix(echo_mix({n}, \"{word}\" .. {n}, {}, {b})))\n",
+                    "obs({tag}, show_mix(echo_mix({nlit}, \"{word}\" .. {nlit}, {}, {b})))\n",
                     lit_float(f)
                 ),
                 vec![format!(
@@ -149,8 +157,38 @@ fn host_call(rng: &mut Rng, tag: i64) -> (String, Vec<String>, String) {
                 back.iter().map(|e| format!("{e},")).collect(),
             )
         }
+        12 | 13 => {
+            // two arrays and a scalar: either array may be empty, in any position
+            let la = rng.below(3);
+            let lb = rng.below(3);
+            let a: Vec<i64> = (0..la).map(|i| i as i64 + 1).collect();
+            let b: Vec<String> = (0..lb).map(|i| format!("q{i}")).collect();
+            let mut decl = String::new();
+            let a_arg = if a.is_empty() {
+                decl.push_str(&format!("let ea{tag}: array<int> = []\n"));
+                format!("ea{tag}")
+            } else {
+                format!("[{}]", a.iter().map(|x| x.to_string()).collect::<Vec<_>>().join(", "))
+            };
+            let b_arg = if b.is_empty() {
+                decl.push_str(&format!("let eb{tag}: array<string> = []\n"));
+                format!("eb{tag}")
+            } else {
+                format!("[{}]", b.iter().map(|x| format!("\"q\" .. {}", &x[1..])).collect::<Vec<_>>().join(", "))
+            };
+            let c = rng.below(50) as i64;
+            let mut back: Vec<String> = b.iter().rev().cloned().collect();
+            back.push(format!("{}:{c}", a.iter().sum::<i64>()));
+            (
+                format!("{decl}obs({tag}, js(echo_two({a_arg}, {b_arg}, {c})))\n"),
+                vec![format!("echo_two({a:?},{b:?},{c})")],
+                back.iter().map(|e| format!("{e},")).collect(),
+            )
+        }
         6 => {
-            let rows: Vec<Vec<i64>> = (0..rng.range(1, 3)).map(|r| (0..rng.range(1, 3)).map(|c| n + r as i64 * 10 + c as i64).collect()).collect();
+            // rows may be empty, also in the middle
+            let n = n.rem_euclid(1000);
+            let rows: Vec<Vec<i64>> = (0..rng.range(1, 4)).map(|r| (0..rng.below(3)).map(|c| n + r as i64 * 10 + c as i64).collect()).collect();
             let arg = format!(
                 "[{}]",
                 rows.iter()
@@ -171,7 +209,7 @@ fn host_call(rng: &mut Rng, tag: i64) -> (String, Vec<String>, String) {
             let some = rng.chance(1, 2);
             if some {
                 (
-                    format!("obs({tag}, show_opt(echo_opt(option.some({n}))))\n"),
+                    format!("obs({tag}, show_opt(echo_opt(option.some({nlit}))))\n"),
                     vec![format!("echo_opt(Some({n}))")],
                     "none".to_string(),
                 )
@@ -193,7 +231,7 @@ fn host_call(rng: &mut Rng, tag: i64) -> (String, Vec<String>, String) {
                 )
             } else {
                 (
-                    format!("obs({tag}, show_res(echo_res(result.err({n}))))\n"),
+                    format!("obs({tag}, show_res(echo_res(result.err({nlit}))))\n"),
                     vec![format!("echo_res(Err({n}))")],
                     format!("ok:e{n}"),
                 )
@@ -211,7 +249,7 @@ fn host_call(rng: &mut Rng, tag: i64) -> (String, Vec<String>, String) {
                 "Bb:1".to_string(),
             ),
             1 => (
-                format!("obs({tag}, show_enum(echo_enum(HEnum.Bb({n}))))\n"),
+                format!("obs({tag}, show_enum(echo_enum(HEnum.Bb({nlit}))))\n"),
                 vec![format!("echo_enum(Bb({n}))")],
                 format!("Cc:b:{n}"),
             ),
